@@ -96,6 +96,10 @@ type Cert struct {
 	Extra  []pkix.Extension
 	SigAlg x509.SignatureAlgorithm
 	SKI    []byte // subjectKeyIdentifier override (default: SHA-1 of the public key)
+	AKI    []byte // authorityKeyIdentifier override (default: the issuer's subjectKeyIdentifier)
+	// EKUFirst puts the extended-key-usage extension in front of every other
+	// extension (key identifiers included)
+	EKUFirst bool
 }
 
 var serialCounter atomic.Int64
@@ -268,6 +272,34 @@ func Issue(c *Cert, parent *x509.Certificate, parentKey *Key) (*x509.Certificate
 	tmpl.SubjectKeyId = c.SKI
 	if tmpl.SubjectKeyId == nil {
 		tmpl.SubjectKeyId = KeyID(c.Key)
+	}
+	if c.EKUFirst {
+		// crypto/x509 writes the key identifiers before ExtraExtensions: write
+		// them by hand, behind the extended key usage
+		var eku, rest []pkix.Extension
+		for _, e := range tmpl.ExtraExtensions {
+			if e.Id.Equal(OIDExtKeyUsage) {
+				eku = append(eku, e)
+			} else {
+				rest = append(rest, e)
+			}
+		}
+		ski := append([]byte{0x04, byte(len(tmpl.SubjectKeyId))}, tmpl.SubjectKeyId...)
+		eku = append(eku, pkix.Extension{Id: asn1.ObjectIdentifier{2, 5, 29, 14}, Value: ski})
+		if parent != nil && len(parent.SubjectKeyId) > 0 && len(parent.SubjectKeyId) < 120 {
+			id := parent.SubjectKeyId
+			if c.AKI != nil {
+				id = c.AKI
+			}
+			aki := append([]byte{0x30, byte(len(id) + 2), 0x80, byte(len(id))}, id...)
+			eku = append(eku, pkix.Extension{Id: asn1.ObjectIdentifier{2, 5, 29, 35}, Value: aki})
+			parent = &x509.Certificate{RawSubject: parent.RawSubject, Subject: parent.Subject}
+		}
+		tmpl.ExtraExtensions = append(eku, rest...)
+		tmpl.SubjectKeyId = nil
+	}
+	if c.AKI != nil && parent != nil && !c.EKUFirst {
+		parent = &x509.Certificate{RawSubject: parent.RawSubject, Subject: parent.Subject, SubjectKeyId: c.AKI}
 	}
 	par := parent
 	signKey := parentKey
